@@ -288,7 +288,30 @@ impl<'a> G01<'a> {
         if d < depth.saturating_sub(1) + 1 && depth >= 2 {
             self.derived_nested = true;
         }
-        match self.rng.below(16) {
+        match self.rng.below(17) {
+            16 => {
+                // the same effectful expression spelled twice in one conditional form: each
+                // occurrence is evaluated when (and as often as) the form's rules say
+                let counters = self.vars_of(|v| v.assignable && matches!(v.kind, VKind::Data(Ty::Int)));
+                let eff = if !counters.is_empty() && self.rng.chance(2, 3) {
+                    let c = self.rng.pick(&counters).clone();
+                    self.note_global(&c);
+                    list(vec![sym("set!"), sym(&c.name), call("+", vec![sym(&c.name), int(1)])])
+                } else {
+                    self.effect(d)
+                };
+                let v = self.expr(ty, d);
+                let e = list(vec![sym("begin"), eff, v]);
+                let other = self.expr(ty, d);
+                match self.rng.below(7) {
+                    0 | 1 => sx_if(e.clone(), e, other),
+                    2 => call("and", vec![e.clone(), e]),
+                    3 => call("and", vec![self.test_true(d), e.clone(), e]),
+                    4 => call("or", vec![Sx::Bool(false), call("and", vec![e.clone(), e])]),
+                    5 => list(vec![sym("cond"), list(vec![e.clone(), e]), list(vec![sym("else"), other])]),
+                    _ => sx_if(call("not", vec![e.clone()]), other, e),
+                }
+            }
             0 | 1 => {
                 // if
                 let c = self.test_expr(depth);
